@@ -66,7 +66,15 @@ def _traj(rng, n, kind, stamps=True):
     q /= np.linalg.norm(q, axis=1, keepdims=True)
     if kind == "negzero":
         q[0] = [1.0, -0.0, 0.0, -0.0]
-    ts = 1.6e9 + np.cumsum(rng.integers(1, 10**9, size=n)) * 1e-9 if kind != "index" else np.arange(n, dtype=float)
+    mode = int(rng.integers(0, 4))
+    if mode == 0:
+        ts = 1.6e9 + np.cumsum(rng.integers(1, 10**9, size=n)) * 1e-9          # epoch stamps with nanosecond fractions
+    elif mode == 1:
+        ts = np.cumsum(rng.random(n))                                           # relative stamps with all 53 bits in use
+    elif mode == 2:
+        ts = 1.6e9 + np.cumsum(rng.random(n))                                   # epoch stamps computed in float64
+    else:
+        ts = np.cumsum(rng.random(n)) * 10.0 ** float(rng.integers(-12, 3))     # very small / sub-nanosecond steps
     return PoseTrajectory3D(xyz, q, ts) if stamps else PosePath3D(xyz, q)
 
 
